@@ -15,7 +15,10 @@ TRUSTED = ["tree built through NewNode/NewEdge + verif hooks (exact neighbour or
 ASSUMPTIONS = ["tip names are distinct (sort.Slice on equal names is not modelled; TipBag refuses equal names)",
                "generated lengths and supports are dyadic (k/64), so float64 sums are exact and equal the model's rationals; "
                "the division of the average is compared within 1e-9"]
-LEVEL_TEXT = "theorems in coq/Properties/C14.v about Model/Matrix.v; correspondence by exact equality of names, cells and bags"
+LEVEL_TEXT = ("theorems in coq/Properties/C14.v about Model/Matrix.v (cells = path sums, symmetric, zero diagonal, name order, "
+              "average = mean; cut = partition of the tips into the pieces left by the branches not shorter than the threshold); "
+              "correspondence by exact equality of names, cells and bags; the run-time oracle for the cut is the independent "
+              "union-find specification coq/Spec/Cut.v")
 LEVEL_NOTE = ("cut: the code compares the stored length with the threshold, so a branch without length (-1) is shorter than every "
               "threshold above -1; the specification Spec/Cut.v reads 'shorter than the threshold' the same way (the property "
               "text does not say how a missing length counts for the cut; for the matrix it counts as 0)")
